@@ -115,13 +115,14 @@ def check_chem(case) -> Result:
         rk = [rank(x) for x in syms if x not in ('e', 'p', 'n')]
         if rk != sorted(rk):
             r.fail('Hill order: carbon, hydrogen, then alphabetical', 'C15/hill-order', **ctx)
-    # additivity (plain notation only)
-    if sep == '':
-        s2 = pt.write_chem_formula(c2)
+    # additivity: plain notation by juxtaposition, separated notations by joining with the separator
+    s2 = pt.write_chem_formula(c2, sep=sep)
+    if sep == '' or (s and s2):
+        joined = s + s2 if sep == '' else s + sep + s2
         try:
-            both = pt.parse_chem_formula(s + s2)
-            p1 = pt.parse_chem_formula(s)
-            p2 = pt.parse_chem_formula(s2)
+            both = pt.parse_chem_formula(joined, sep=sep)
+            p1 = pt.parse_chem_formula(s, sep=sep)
+            p2 = pt.parse_chem_formula(s2, sep=sep)
         except ValueError as e:
             r.fail('concatenation of two written formulas parses', 'C15/additivity/parse-raises', error=str(e)[:150], second=s2, **ctx)
             return r
@@ -129,8 +130,17 @@ def check_chem(case) -> Result:
         for k, v in p2.items():
             tot[k] = tot.get(k, 0) + v
         if not _same_comp(both, tot):
-            r.fail('the composition of a concatenation is the sum of the compositions', 'C15/additivity/wrong', second=s2,
-                   got=both, expected=tot, **ctx)
+            r.fail('the composition of a concatenation is the sum of the compositions', 'C15/additivity/wrong' + ('/separated' if sep else ''),
+                   second=s2, got=both, expected=tot, **ctx)
+        elif sep and tot:
+            try:
+                m_join = pt.chem_mass(joined, sep=sep)
+                m_sum = pt.chem_mass(s, sep=sep) + pt.chem_mass(s2, sep=sep)
+                if abs(m_join - m_sum) > 1e-9 * (sum(abs(v) for v in tot.values()) * 250 + sum(abs(v) for v in p1.values()) * 250 + 1):
+                    r.fail('the mass of a concatenation is the sum of the masses', 'C15/additivity/mass/separated', second=s2, got=m_join,
+                           expected=m_sum, **ctx)
+            except ValueError:
+                pass
     return r
 
 
